@@ -88,4 +88,35 @@ pub fn same_as_fresh(state: [u8; 1029], has_run: bool, msg: &Message) {
     kani::cover!(oka);
 }
 
+/// A fresh builder whose first build fails AFTER the message number was already written into the
+/// buffer (an MSM value with satellite id 0 is refused by the data-segment encoder): the next call must
+/// still start clean, i.e. the used-flag is up (or the buffer untouched). Fully concrete message.
+#[kani::proof]
+#[kani::unwind(1031)]
+pub fn inv_fail_after_write() {
+    use rtcm_rs::msg::{Msg1071Data, Msg1071Sig, Msg1071T, Msm123Sat};
+    use rtcm_rs::util::DataVec;
+    let mut sats = DataVec::<Msm123Sat, 64>::new();
+    sats.push(Msm123Sat { satellite_id: 0, ..Default::default() });
+    let sigs = DataVec::<Msg1071Sig, 64>::new();
+    let m = Msg1071T { data_segment: Msg1071Data { satellite_data: sats, signal_data: sigs }, ..Default::default() };
+    let msg = Message::Msg1071(m);
+    let mut b = MessageBuilder::new();
+    let r = b.build_message(&msg);
+    assert!(r.is_err());
+    let (d, has_run) = b.verif_raw();
+    let mut clean = true;
+    let mut i = 1;
+    while i < 1029 {
+        if d[i] != 0 {
+            clean = false;
+        }
+        i += 1;
+    }
+    assert!(d[0] == 0xD3);
+    assert!(has_run || clean);
+    // the failure really happened after bits were written
+    assert!(!clean);
+}
+
 include!("gen/c12_list.rs");
